@@ -5,6 +5,7 @@ open Frame
 type op =
   | W of int * int          (* seed, len *)
   | RA of int * int         (* ReadAt offset, len *)
+  | MidWrite of int * int   (* file backend: one Write (seed, len) during which the owner closes the file once the first chunk is in *)
   | FileGone                (* file backend: the owner closes the underlying *os.File (so that the store's own close fails later) *)
   | RR of int               (* Reader.Read len *)
   | Seek of int | Valid | Range | Close
@@ -12,7 +13,7 @@ type op =
 type case = { backend : string; cap : int; ops : (op * bool * bool) list }   (* op, parks, wakes *)
 
 let id = "C18"
-let rule = "operation sequences (Write k, ReadAt(o,k), Reader.Read, SeekTo, IsValid, DataRange, Close; on the file backend also Close after the owner has closed the file) on memory backlogs of 1, 2, 3, 5 and 6 alignment units (4096..24576 bytes: powers of two and not) and \
+let rule = "operation sequences (Write k, ReadAt(o,k), Reader.Read, SeekTo, IsValid, DataRange, Close; on the file backend also Close after the owner has closed the file, and one multi-chunk Write interrupted by the owner closing the file) on memory backlogs of 1, 2, 3, 5 and 6 alignment units (4096..24576 bytes: powers of two and not) and \
 file backlogs of 4 MiB; write sizes around 1, cap-1, cap, cap+1, 2cap+5; read offsets at distance 0 (parks), 1, cap-1, cap, cap+1 behind the write position, 1 and 5 beyond it, and far beyond it (2^40 and the top of the uint64 range, 2^64-k with k around 1, 1000 and the capacity) - the same for SeekTo; parked reads are woken by later writes / close; non-trivial = at least one wrap-around or one parked read; distinct by wire line"
 
 let pay_byte seed i = Char.chr ((seed * 131 + i * 7 + (i lsr 8) * 13 + (i lsr 16)) land 255)
@@ -103,12 +104,14 @@ let corpus = [
   { backend = "file"; cap = 1; ops = annotate "file" 1 [ W (1, 5000); RA (-1, 1); RA (-1000, 10); Range; Seek (-1000); Valid; RR 1000; RA (4999, 1); RA (1 lsl 40, 1) ] };
   { backend = "mem"; cap = 5000; ops = annotate "mem" 5000 [ W (1, 5000); RA (-1, 1); RA (-1000, 10); Seek (-1); Valid; RR 10; RA (- 8192, 4); Range ] };
   (* readers parked at the write position of a file backlog whose file the owner has already closed: Close must release them *)
-  { backend = "file"; cap = 1; ops = annotate "file" 1 [ W (1, 100); RA (100, 10); RA (100, 5); FileGone; Close ] } ]
+  { backend = "file"; cap = 1; ops = annotate "file" 1 [ W (1, 100); RA (100, 10); RA (100, 5); FileGone; Close ] };
+  (* one Write of 24 ring capacities interrupted by the owner closing the file: the count returned must be what was appended *)
+  { backend = "file"; cap = 1; ops = annotate "file" 1 [ W (1, 1000); MidWrite (7, 24 * 4194304 + 5) ] } ]
 
 let op_str (op, parks, wakes) =
   (match op with
    | W (s, l) -> Printf.sprintf "w%d,%d" s l | RA (o, l) -> Printf.sprintf "r%s,%d" (soff o) l | RR l -> Printf.sprintf "R%d" l
-   | Seek o -> Printf.sprintf "s%s" (soff o) | Valid -> "v" | Range -> "d" | Close -> "c" | FileGone -> "x")
+   | Seek o -> Printf.sprintf "s%s" (soff o) | Valid -> "v" | Range -> "d" | Close -> "c" | FileGone -> "x" | MidWrite (sd, l) -> Printf.sprintf "X%d,%d" sd l)
   ^ (if parks then "!" else "") ^ (if wakes then "^" else "")
 
 let to_line c = Printf.sprintf "seq %s %d %s" c.backend c.cap (String.concat ";" (List.map op_str c.ops))
@@ -154,6 +157,7 @@ let run_model c =
      | Seek off -> seek := off; res.(i) <- Printf.sprintf "s:%b" (Model.reader_valid !r (noff !seek))
      | Valid -> res.(i) <- Printf.sprintf "v:%b" (Model.reader_valid !r (noff !seek))
      | Range -> let (lo, hi) = Model.data_range !r in res.(i) <- Printf.sprintf "d:%d:%d:ok" (int_of_n lo) (int_of_n hi)
+     | MidWrite _ -> res.(i) <- "X:?"
      | FileGone -> res.(i) <- "x"
      | Close -> r := Model.close !r; res.(i) <- "c");
     ignore wakes;
@@ -212,6 +216,17 @@ let oracle c (obs : string list) =
 
 let judge c obs =
   let impl = String.concat " " obs in
+  if List.exists (fun (op, _, _) -> match op with MidWrite _ -> true | _ -> false) c.ops then begin
+    (* not modelled (the moment of the failure is the runtime's): only the contract of Write's return value is judged *)
+    let parts = String.split_on_char ';' impl in
+    match List.find_opt (fun o -> String.length o > 2 && String.sub o 0 2 = "X:") parts with
+    | Some o -> (match String.split_on_char ':' o with
+        | [ _; n; delta; _ ] when n = delta -> Agree
+        | [ _; n; delta; err ] -> fail "oracle" "write-count" ("Write returns the number of bytes it appended (" ^ delta ^ ")") impl
+                                    (Printf.sprintf "Write returned %s (%s) although the write position advanced by %s bytes" n err delta)
+        | _ -> fail "diff" "no-observation" "" impl "malformed observation")
+    | None -> fail "diff" "no-observation" "" impl "the interrupted write produced no observation"
+  end else
   let model = run_model c in
   let obs_ops = String.split_on_char ';' impl in
   match oracle c obs_ops with
